@@ -24,6 +24,7 @@ import struct
 
 from vmc import vctx, vos, sched as vs, explore, par, report
 from billiard import connection as bc
+from billiard import util as butil
 from billiard import AuthenticationError
 from billiard.process import AuthenticationString
 from billiard.reduction import ForkingPickler
@@ -151,6 +152,11 @@ class Env:
         self.conns = []
         self.nsess = 0
         self.world = None
+        # billiard.util._finalizer_registry IS multiprocessing.util's: never
+        # clear it wholesale (vctx.reset_billiard_globals would unregister
+        # the terminate-finalizer of vmc.par's pool and make shutdown hang);
+        # drop only what this execution registered
+        self.finalizers = set(butil._finalizer_registry)
         del HMAC_CALLS[:]
 
     def arm(self, world, split=False):
@@ -181,6 +187,9 @@ class Env:
             except OSError:
                 pass
         _ENDPOINTS.clear()
+        for k in list(butil._finalizer_registry):
+            if k not in self.finalizers:
+                del butil._finalizer_registry[k]
 
 
 def _quiet_close(conn):
@@ -279,7 +288,6 @@ def _run_honest(cfg, prefix):
                      % (cfg['variant'], len(kl), len(kc), rl, rc, st,
                         env.sched.describe()))
         env.finish()
-    vctx.reset_billiard_globals()
     first = ''.join(e[0] for e in env.log
                     if e[1] in ('raised', 'returned-connection'))
     return _execution(env, ('honest', kl == kc, rl, rc, st, wire, first), v)
@@ -453,7 +461,6 @@ def _run_adv(cfg, prefix):
                  'the peer played %r in its slots %r'
                  % (role, got, st, script, SLOTS[role]))
         env.finish()
-    vctx.reset_billiard_globals()
     if v:
         v += '\nrole=%s key=%d bytes script=%r bytes sent=%r' % (
             role, len(key), script,
@@ -513,7 +520,6 @@ def _run_fresh(cfg, prefix):
         st = env.sched.status
         nlog = len(world.urandom_log)
         env.finish()
-    vctx.reset_billiard_globals()
     return _execution(
         env, ('fresh', cfg['size'], len(nonces), len(set(nonces)),
               tuple(len(n) for n in nonces), nlog, st), v)
@@ -583,7 +589,6 @@ def _run_ktype(cfg, prefix):
                      '%d handshake writes, %d digests computed'
                      % (name, writes, digests))
         env.finish()
-    vctx.reset_billiard_globals()
     where = 'ctor' if (side == 'listener' and not ctor) else 'call'
     return _execution(env, ('ktype', side, name, got, where, writes, digests),
                       v)
@@ -742,7 +747,6 @@ def conformance():
                 mism.append((cfg, virt[i], real))
     finally:
         bc.SocketListener, bc.SocketClient = _STUB_TRANSPORT
-        vctx.reset_billiard_globals()
         shutil.rmtree(d, ignore_errors=True)
     return len(cases), outs, mism
 
@@ -869,7 +873,9 @@ def main(tier, seed, only=None):
             rep.violation('AuthenticationString: ' + b,
                           dict(harness='c18', config=dict(kind='authstring'),
                                choices=[]))
-    if not only or 'conformance' in only:
+    # fidelity of the transport stubs; pointless (and, with real threads,
+    # slow) once the explored part has already produced a verdict
+    if (not only or 'conformance' in only) and not rep.violations:
         n, outs, mism = conformance()
         if mism:
             raise vs.HarnessError(
